@@ -252,10 +252,14 @@ def probe_stream(ctx, n):
     """Returns (cases, errors). A case: dict(dst,inpkg,imports,scope,ops,obs) with obs in the out_term format."""
     import gen_pkgs, shutil
     root = ctx.scratch / "pm"
-    g = gen_pkgs.Gen(ctx.rng)
-    m = g.module()
+    for _ in range(50):
+        # a module can come out with generic interfaces only: draw again (same PRNG, so runs replay exactly)
+        g = gen_pkgs.Gen(ctx.rng)
+        m = g.module()
+        targets = [(i["name"], mm["n"]) for i in m["ifaces"] if not i["tparams"] for mm in i["methods"] if mm["n"][0].isupper()]
+        if targets:
+            break
     gen_pkgs.write_module(m, root, testify=False)
-    targets = [(i["name"], mm["n"]) for i in m["ifaces"] if not i["tparams"] for mm in i["methods"] if mm["n"][0].isupper()]
     if not targets:
         return [], ["generated module has no usable method"]
     jobs = []
